@@ -103,6 +103,7 @@ from ..ast.fpyast import (
 from ..ast.visitor import DefaultTransformVisitor
 from ..utils import Gensym, Id
 from .iter_elim import (
+    body_may_write,
     Ctx,
     Plan,
     Slot,
@@ -185,7 +186,7 @@ class _EnumerateElimInstance(DefaultTransformVisitor):
 
     def _visit_for(self, stmt: ForStmt, ctx: Ctx):
         split = _split_target(stmt.target, stmt.iterable)
-        if split is None:
+        if split is None or body_may_write(stmt.body):
             return super()._visit_for(stmt, ctx)
         # Recursively rewrite the body first, in case it contains nested
         # enumerate patterns.
